@@ -84,7 +84,10 @@ def main():
             unsafes.append(f"{rel}: unsafe impl {m.group(1)} for {m.group(2)}")
     ctx = files.get("src/impl_/sodium_ctx.rs", "")
     eot = body_of(ctx, r"pub fn end_of_transaction\s*\(&self\)\s*\{") or ""
-    phases = first_order(eot, [("pre_eot", r"data\.pre_eot"), ("changed_nodes", r"data\.changed_nodes"), ("pre_post", r"data\.pre_post"),
+    # (the pre_eot queue is drained by a helper since R12: it counts as the pre_eot phase if it really takes that queue)
+    pre_eot_fn = body_of(ctx, r"fn run_pre_eot\s*\(&self\)\s*\{") or ""
+    pre_eot_pat = r"data\.pre_eot" + (r"|self\.run_pre_eot\s*\(" if re.search(r"data\.pre_eot", pre_eot_fn) else "")
+    phases = first_order(eot, [("pre_eot", pre_eot_pat), ("changed_nodes", r"data\.changed_nodes"), ("pre_post", r"data\.pre_post"),
                                ("post", r"data\.post\b"), ("collect_cycles", r"collect_cycles\s*\(")])
     upd = body_of(ctx, r"pub fn update_node\s*\(&self, node: &Node\)\s*\{") or ""
     dependents = "queue" if re.search(r"add_dependents_to_changed_nodes\s*\(", upd) and not re.search(r"_self\.update_node\(dependent", upd) else "dfs"
@@ -109,7 +112,10 @@ def main():
     post_txn = bool(re.search(r"transaction\s*\(", ppost))
     txo = files.get("src/impl_/transaction.rs", "")
     close = body_of(txo, r"pub fn close\s*\(&self\)\s*\{") or ""
-    close_once = bool(re.search(r"if\s*!self\.done\.get\(\)", close) and re.search(r"self\.done\.set\(true\)", close))
+    # the closed flag guards leave_transaction: either `if !done.get() { …; done.set(true) }` (a Cell) or the atomic
+    # test-and-set `if !done.swap(true, …) { … }`
+    close_once = bool((re.search(r"if\s*!self\.done\.get\(\)", close) and re.search(r"self\.done\.set\(true\)", close))
+                      or re.search(r"if\s*!self\.done\.swap\(\s*true\s*,[^)]*\)\s*\{\s*self\.sodium_ctx\.leave_transaction\(\)", close))
 
     def L(xs): return "[" + ", ".join('"%s"' % x.replace('"', "'") for x in xs) + "]"
     def B(b): return "true" if b else "false"
